@@ -114,7 +114,9 @@ func (r ResolveResult) Targets(network string) iter.Seq[Target] {
 			}
 			alpn := h.ALPN
 			if !h.NoDefaultALPN {
-				alpn = append(alpn, "http/1.1")
+				// Do not append in place: the record is shared with the
+				// resolver cache and other users of the result.
+				alpn = append(slices.Clone(alpn), "http/1.1")
 			}
 			if h.Target != "" {
 				for _, a := range r.Additional[h.Target] {
